@@ -576,6 +576,16 @@ fn execute_inner(h: &History, want: &str, rep: &mut Report, start: Option<ExecSt
         match op {
             Op::Byte(b) => {
                 let cls = (dec.state_class(), byte_class(*b, rf.channel));
+                if !observed_gate_mode && want != "C05" && want != "C17" && rf.held.len() >= 32 {
+                    // C04 / C06 / C18 are stated up to 32 outstanding note-ons: a byte that would complete the 33rd
+                    // is not fed at all (whatever it does, panicking included, is C05's and C17's business)
+                    if let Some(msg) = dec.clone().feed(*b) {
+                        if msg.status == (0x90 | rf.channel) && msg.d2 > 0 {
+                            rep.count("midi.history_cut_before_33rd_note_on", 1);
+                            break;
+                        }
+                    }
+                }
                 call!(m.parse(*b), i);
                 n_bytes += 1;
                 n_eval += 1;
